@@ -67,6 +67,18 @@ pub fn total<F: Family>(b: &[u8], ctx: &mut Ctx) -> CaseResult {
         // (schedule independence is C05's business; here only the outcome kind is recorded)
         ctx.label(if p2.result.is_ok() == p1.result.is_ok() { "chunked:same-kind" } else { "chunked:different-kind" });
     }
+    // a caller that polls the same state again after the decoder has reported an error (it logs the error and tries to
+    // go on with what is left of the stream): anything may come back, but nothing panics and nothing spins
+    if p1.result.is_err() && b.len() <= 4096 {
+        let mut rd = crate::sio::ScriptedReader::new(b, &[]);
+        let mut state: mqtt_proto::GenericPollPacketState<F::Header> = Default::default();
+        for _ in 0..4 {
+            let (r, _) = crate::sio::drive(mqtt_proto::GenericPollPacket::new(&mut state, &mut rd), b.len() + 16);
+            if r.is_ok() {
+                break;
+            }
+        }
+    }
     if let Ok(ok) = &p1.result {
         // reading the handed-back buffer is what exposes uninitialised memory under Miri/ASan
         let s: u64 = ok.body.iter().map(|x| *x as u64).sum();
